@@ -57,6 +57,8 @@ def parseArg : List String → Option Arg
     let (gs, rest') ← groups 3 n rest
     if !rest'.isEmpty then none
     let parts ← gs.mapM (fun g => match g with
+      -- a JSON null in the list (a nil entry, refused by `Validate` since fix 7f6bdd6): to the model an entry without a name
+      | ["NIL", _, _] => pure (⟨"", [], []⟩ : PartEntry)
       | [u, pk, dk] => do pure (⟨← parseStr u, ← parseBytes pk, ← parseBytes dk⟩ : PartEntry)
       | _ => none)
     pure (.sigInit parts thr ts)
